@@ -1,7 +1,7 @@
 (** C05 — property theorems only; each closed by [exact] of a lemma proved elsewhere. *)
 From Coq Require Import ZArith List.
 From VB Require Import Stateless.EmbedDefs Stateless.EmbedProofs Stateless.EmbedBits Stateless.MerkleDefs Stateless.MerkleProofs
-     Stateless.CheckDefs Stateless.CheckProofs.
+     Stateless.CheckDefs Stateless.CheckProofs Arith.CompactDefs Stateless.PowDefs Stateless.PowProofs.
 Import ListNotations.
 Local Open Scope Z_scope.
 
@@ -283,3 +283,61 @@ Theorem C05_netbyte_v0_refuted :
   exists a b : option Z, net_ne_v0 a b = false /\ a <> b.
 Proof. exact @netbyte_v0_refuted. Qed.
 Print Assumptions C05_netbyte_v0_refuted.
+
+Theorem C05_pow_btc_sound :
+  forall powLimit bits hash : Z, pow_btc powLimit bits hash = true -> btc_pow_facts powLimit bits hash.
+Proof. exact @pow_btc_sound. Qed.
+Print Assumptions C05_pow_btc_sound.
+
+Theorem C05_pow_btc_complete :
+  forall powLimit bits hash : Z, btc_pow_facts powLimit bits hash -> pow_btc powLimit bits hash = true.
+Proof. exact @pow_btc_complete. Qed.
+Print Assumptions C05_pow_btc_complete.
+
+Theorem C05_pow_btc_target_bound :
+  forall powLimit bits hash : Z,
+  powLimit < fst (fst (fromBits bits)) -> pow_btc powLimit bits hash = false.
+Proof. exact @pow_btc_target_bound. Qed.
+Print Assumptions C05_pow_btc_target_bound.
+
+Theorem C05_pow_vbk_sound :
+  forall maxd minDiff bits hash : Z,
+  pow_vbk maxd minDiff bits hash = true -> vbk_pow_facts maxd minDiff bits hash.
+Proof. exact @pow_vbk_sound. Qed.
+Print Assumptions C05_pow_vbk_sound.
+
+Theorem C05_btc_context_pow_sound :
+  forall (BtcBlock : Type) (btc_hash btc_prev : BtcBlock -> list Z)
+  (btc_bits btc_hashnum : BtcBlock -> Z) (powLimit : Z) (sha256d : list Z -> list Z)
+  (verify : list Z -> list Z -> list Z -> bool) (addr_from_pubkey addr_checksum : list Z -> list Z)
+  (vbk_magic : option Z) (t : VbkPopTx BtcBlock),
+  zlen (p_btctx BtcBlock t) < 2 ^ 64 ->
+  check_vbk_pop_tx BtcBlock btc_hash btc_prev
+  (fun b : BtcBlock => pow_btc powLimit (btc_bits b) (btc_hashnum b)) sha256d verify addr_from_pubkey
+  addr_checksum vbk_magic t = Ok ->
+  Forall (fun b : BtcBlock => btc_pow_facts powLimit (btc_bits b) (btc_hashnum b))
+  (p_context BtcBlock t) /\ btc_linked BtcBlock btc_hash btc_prev (p_context BtcBlock t).
+Proof. exact @btc_context_pow_sound. Qed.
+Print Assumptions C05_btc_context_pow_sound.
+
+Theorem C05_vbk_blocks_pow_sound :
+  forall (VbkBlock : Type) (vbk_height : VbkBlock -> Z) (vbk_hash_trim vbk_prev : VbkBlock -> list Z)
+  (vbk_time vbk_bits vbk_hashnum : VbkBlock -> Z) (forkHeight startTime blockTime : Z)
+  (enabled : bool) (maxd minDiff : Z) (bs : list VbkBlock),
+  check_vbk_blocks VbkBlock vbk_height vbk_hash_trim vbk_prev
+  (fun b : VbkBlock =>
+  vbk_plausibility forkHeight startTime blockTime enabled (vbk_height b) (vbk_time b) =? 0)
+  (fun b : VbkBlock => pow_vbk maxd minDiff (vbk_bits b) (vbk_hashnum b)) bs = 0 ->
+  Forall
+  (fun b : VbkBlock =>
+  vbk_plausibility forkHeight startTime blockTime enabled (vbk_height b) (vbk_time b) = 0 /\
+  vbk_pow_facts maxd minDiff (vbk_bits b) (vbk_hashnum b)) bs.
+Proof. exact @vbk_blocks_pow_sound. Qed.
+Print Assumptions C05_vbk_blocks_pow_sound.
+
+Theorem C05_vbk_plausibility_sound :
+  forall (forkHeight startTime blockTime : Z) (enabled : bool) (height timestamp : Z),
+  vbk_plausibility forkHeight startTime blockTime enabled height timestamp = 0 ->
+  forkHeight <= height /\ u32 (height ÷ 8000) <= 4096 /\ (enabled = true -> startTime <= timestamp).
+Proof. exact @vbk_plausibility_sound. Qed.
+Print Assumptions C05_vbk_plausibility_sound.
